@@ -160,7 +160,7 @@ Example C17_seg_nonvacuous :
             Enter 1 (SInst (Obj 1)) false; Query 1; Set_ 2 (SInst (Obj 3)) false; Exit_ 1 true; Dispatch 3] in
   seg fixed_rules cfg0 1 0 h /\
   trace fixed_rules cfg0 s0 (Query 1 :: Enter 1 (SName 1) true :: h ++ [Exit_ 1 false; Query 1; Query 3])
-  = [OName 0; ODone; ODone; ODone; ORejected; ODone; OName 2; ODone; ODone; OInst (Obj 3); ODone; OName 0; OName 1].
+  = [OName 0; ODone; ODone; ODone; ORejected; ODone; OName 2; ODone; ODone; OInst (Obj 0); ODone; OName 0; OName 1].
 Proof.
   cbv zeta. split; [|vm_compute; reflexivity].
   apply seg_set. apply seg_other; [discriminate|]. apply seg_enter_rej; [reflexivity|].
